@@ -52,85 +52,112 @@ Lemma wr_firstn n w l : wr (firstn n w) l = true -> wr w l = true.
 Proof. intros H. rewrite <- (firstn_skipn n w), wr_app, H. reflexivity. Qed.
 
 (* ---- invariant ---- *)
-Definition cur (w : wst) : list (N * cell) := match nth_error (recs w) (st w) with Some r => firstn (k w) (ws r) | None => [] end.
 Definition S_ (T0 : base) (w : wst) (n : nat) : base := apply_recs (firstn n (recs w)) T0.
 
 Record WInv (T0 : base) (w : wst) : Prop := {
-  w_ord   : (t w <= fl w <= st w)%nat /\ (st w <= s w <= length (recs w))%nat;
+  w_ord   : (t w <= st w)%nat /\ (st w <= s w <= length (recs w))%nat;
   w_k     : (k w > 0 -> st w < s w)%nat;
   w_C     : forall l, C w l = apply_ws (cur w) (S_ T0 w (st w)) l;
   w_clean : forall l, dirty w l = false -> D w l = C w l;
-  w_dirty : forall l, dirty w l = true -> wrs (sub (recs w) (fl w) (st w)) l || wr (cur w) l = true
+  (* every cell whose durable content is unknown is written by a record the log still holds *)
+  w_dirty : forall l, dirty w l = true -> wrs (sub (recs w) (t w) (st w)) l || wr (cur w) l = true
 }.
 
 Lemma firstn_app_le {A} n (a b : list A) : (n <= length a)%nat -> firstn n (a ++ b) = firstn n a.
 Proof. intros H. rewrite firstn_app. replace (n - length a)%nat with O by lia. cbn. apply app_nil_r. Qed.
 Lemma sub_app_le {A} (a b : list A) i j : (j <= length a)%nat -> sub (a ++ b) i j = sub a i j.
-Proof. intros H. unfold sub. destruct (Nat.le_gt_cases i j) as [Hij|Hij].
-  - rewrite skipn_app. replace (i - length a)%nat with O by lia. cbn.
-    rewrite firstn_app_le; [reflexivity|]. rewrite skipn_length. lia.
-  - replace (j - i)%nat with O by lia. reflexivity. Qed.
+Proof.
+  intros H. unfold sub. destruct (Nat.le_gt_cases i (length a)) as [Hi|Hi].
+  - rewrite skipn_app. replace (i - length a)%nat with O by lia. cbn [skipn].
+    apply firstn_app_le. rewrite skipn_length. lia.
+  - replace (j - i)%nat with O by lia. reflexivity.
+Qed.
 Lemma nth_error_app_lt {A} (a b : list A) i : (i < length a)%nat -> nth_error (a ++ b) i = nth_error a i.
 Proof. apply nth_error_app1. Qed.
-
 Lemma firstn_S_nth {A} (w : list A) d x : nth_error w d = Some x -> firstn (S d) w = firstn d w ++ [x].
 Proof. revert d. induction w as [|a w IH]; intros [|d] H; cbn in *; try discriminate.
   - inversion H; reflexivity. - rewrite (IH d H). reflexivity. Qed.
+
+Lemma dirty_cons w l x : existsb (N.eqb x) (l :: dirtyl w) = (x =? l) || dirty w x.
+Proof. reflexivity. Qed.
+Lemma dirty_filter (P : N -> bool) dl x : existsb (N.eqb x) (filter (fun l => negb (P l)) dl) = negb (P x) && existsb (N.eqb x) dl.
+Proof.
+  induction dl as [|a dl IH]; cbn [filter existsb]; [rewrite andb_false_r; reflexivity|].
+  destruct (P a) eqn:Pa; cbn [negb existsb].
+  - rewrite IH. destruct (N.eqb_spec x a) as [->|]; [rewrite Pa; reflexivity|reflexivity].
+  - rewrite IH. destruct (N.eqb_spec x a) as [->|]; [rewrite Pa; reflexivity|reflexivity].
+Qed.
+
+Lemma trunc_ok_spec w n : trunc_ok w n = true -> forall l, dirty w l = true -> wrs (sub (recs w) n (st w)) l || wr (cur w) l = true.
+Proof.
+  unfold trunc_ok, dirty. intros H l Hl. rewrite forallb_forall in H. apply existsb_exists in Hl.
+  destruct Hl as [x [Hin Hx]]. apply N.eqb_eq in Hx. subst x. apply H. exact Hin.
+Qed.
 
 Lemma winv_step T0 w w' : WInv T0 w -> step w w' -> WInv T0 w'.
 Proof.
   intros [[Ho1 Ho2] Hk HC Hcl Hd] Hs. inversion Hs; subst; clear Hs.
   - (* Append: nothing about stored state changes; slices below s are unchanged *)
-    assert (Hcur : cur {| recs := recs w ++ [r]; s := s w; st := st w; k := k w; fl := fl w; t := t w; C := C w; D := D w; dirty := dirty w |} = cur w \/ k w = O).
-    { unfold cur; cbn. destruct (Nat.lt_ge_cases (st w) (length (recs w))) as [Hl|Hl].
+    set (w1 := {| recs := recs w ++ [r]; s := s w; st := st w; k := k w; t := t w; C := C w; D := D w; dirtyl := dirtyl w |}).
+    assert (Hcur : cur w1 = cur w \/ k w = O).
+    { unfold cur, w1; cbn. destruct (Nat.lt_ge_cases (st w) (length (recs w))) as [Hl|Hl].
       - left. rewrite nth_error_app1 by exact Hl. reflexivity.
       - right. destruct (k w); [reflexivity|]. assert (st w < s w)%nat by (apply Hk; lia). lia. }
-    assert (Hcur' : cur {| recs := recs w ++ [r]; s := s w; st := st w; k := k w; fl := fl w; t := t w; C := C w; D := D w; dirty := dirty w |} = cur w).
-    { destruct Hcur as [E|E]; [exact E|]. unfold cur; cbn. rewrite E. destruct (nth_error (recs w ++ [r]) (st w)), (nth_error (recs w) (st w)); reflexivity. }
-    constructor; cbn [recs s st k fl t C D dirty].
-    + rewrite app_length; cbn. lia.
+    assert (Hcur' : cur w1 = cur w).
+    { destruct Hcur as [E|E]; [exact E|]. unfold cur, w1; cbn. rewrite E. destruct (nth_error (recs w ++ [r]) (st w)), (nth_error (recs w) (st w)); reflexivity. }
+    constructor.
+    + cbn [recs s st k t w1]. rewrite app_length; cbn. lia.
     + exact Hk.
-    + intros l. rewrite Hcur'. unfold S_; cbn [recs]. rewrite firstn_app_le by lia. apply HC.
+    + intros l. rewrite Hcur'. unfold S_; cbn [recs st C w1]. rewrite firstn_app_le by lia. apply HC.
     + exact Hcl.
-    + intros l Hl. rewrite Hcur'. rewrite sub_app_le by lia. apply Hd; exact Hl.
+    + intros l Hl. rewrite Hcur'. cbn [recs st t w1]. rewrite sub_app_le by lia. apply Hd; exact Hl.
   - (* SyncLog *)
-    constructor; cbn [recs s st k fl t C D dirty]; try assumption; try lia.
+    constructor; cbn [recs s st k t C D]; try assumption; try lia.
     all: try (intros Hp; specialize (Hk Hp); lia).
   - (* Store *)
-    assert (Hcur : cur {| recs := recs w; s := s w; st := st w; k := S (k w); fl := fl w; t := t w; C := upd (C w) l c; D := D w; dirty := fun x => (x =? l) || dirty w x |} = cur w ++ [(l, c)]).
-    { unfold cur; cbn. rewrite H0. apply firstn_S_nth; exact H1. }
-    constructor; cbn [recs s st k fl t C D dirty].
-    + lia.
+    set (w1 := {| recs := recs w; s := s w; st := st w; k := S (k w); t := t w; C := upd (C w) l c; D := D w; dirtyl := l :: dirtyl w |}).
+    assert (Hcur : cur w1 = cur w ++ [(l, c)]).
+    { unfold cur, w1; cbn. rewrite H0. apply firstn_S_nth; exact H1. }
+    constructor.
+    + cbn [recs s st k t w1]. lia.
     + intros _; exact H.
     + intros x. rewrite Hcur, apply_ws_app. cbn. unfold upd at 1 2. destruct (x =? l); [reflexivity|apply HC].
-    + intros x Hx. apply orb_false_iff in Hx as [Hx1 Hx2]. unfold upd. rewrite Hx1. apply Hcl; exact Hx2.
-    + intros x Hx. rewrite Hcur, wr_app. cbn. destruct (x =? l) eqn:E.
-      * apply N.eqb_eq in E; subst. rewrite N.eqb_refl. rewrite !orb_true_r. reflexivity.
-      * cbn in Hx. rewrite (Hd x Hx) || (pose proof (Hd x Hx) as Hdx; apply orb_true_iff in Hdx as [Hdx|Hdx]; rewrite Hdx; rewrite ?orb_true_r; reflexivity).
-        all: try reflexivity.
+    + intros x Hx. unfold dirty, w1 in Hx. cbn [dirtyl] in Hx. rewrite dirty_cons in Hx.
+      apply orb_false_iff in Hx as [Hx1 Hx2]. cbn [D C w1]. unfold upd. rewrite Hx1. apply Hcl; exact Hx2.
+    + intros x Hx. rewrite Hcur, wr_app. cbn [recs st t w1]. cbn [wr existsb fst]. destruct (N.eqb_spec l x) as [->|Hne].
+      * rewrite !orb_true_r. reflexivity.
+      * unfold dirty, w1 in Hx. cbn [dirtyl] in Hx. rewrite dirty_cons in Hx.
+        destruct (N.eqb_spec x l) as [E|_]; [symmetry in E; contradiction|]. cbn [orb] in Hx.
+        pose proof (Hd x Hx) as Hdx. apply orb_true_iff in Hdx as [Hdx|Hdx]; rewrite Hdx; rewrite ?orb_true_r; reflexivity.
   - (* Finish: record st fully stored *)
     assert (Hcw : cur w = ws r) by (unfold cur; rewrite H0, H1; apply firstn_all).
     assert (Hlen : (st w < length (recs w))%nat) by (apply nth_error_Some; rewrite H0; discriminate).
-    constructor; cbn [recs s st k fl t C D dirty].
-    + lia.
-    + intros; lia.
-    + intros l. unfold cur; cbn [recs st k]. 
-      assert (Hnil : match nth_error (recs w) (S (st w)) with Some r0 => firstn 0 (ws r0) | None => [] end = []) by (destruct (nth_error (recs w) (S (st w))); reflexivity).
-      rewrite Hnil. cbn [apply_ws fold_left]. rewrite HC, Hcw. unfold S_. cbn [recs st]. rewrite (firstn_S_nth _ _ _ H0), apply_recs_app. reflexivity.
+    set (w1 := {| recs := recs w; s := s w; st := S (st w); k := O; t := t w; C := C w; D := D w; dirtyl := dirtyl w |}).
+    assert (Hnil : cur w1 = []).
+    { unfold cur, w1; cbn [recs st k]. destruct (nth_error (recs w) (S (st w))); reflexivity. }
+    constructor.
+    + cbn [recs s st k t w1]. lia.
+    + cbn [k w1]. intros; lia.
+    + intros l. rewrite Hnil. cbn [apply_ws fold_left C w1]. rewrite HC, Hcw. unfold S_. cbn [recs st w1]. rewrite (firstn_S_nth _ _ _ H0), apply_recs_app. reflexivity.
     + exact Hcl.
-    + intros l Hl. unfold cur; cbn [recs st k].
-      assert (Hnil : match nth_error (recs w) (S (st w)) with Some r0 => firstn 0 (ws r0) | None => [] end = []) by (destruct (nth_error (recs w) (S (st w))); reflexivity).
-      rewrite Hnil. cbn [wr existsb]. rewrite orb_false_r.
-      rewrite (sub_split (recs w) (fl w) (st w) (S (st w))) by lia. rewrite wrs_app, (sub_one _ _ _ H0).
+    + intros l Hl. rewrite Hnil. cbn [wr existsb recs st t w1]. rewrite orb_false_r.
+      rewrite (sub_split (recs w) (t w) (st w) (S (st w))) by lia. rewrite wrs_app, (sub_one _ _ _ H0).
       specialize (Hd l Hl). rewrite Hcw in Hd. cbn [wrs existsb]. rewrite orb_false_r. exact Hd.
-  - (* Flush *)
-    constructor; cbn [recs s st k fl t C D dirty].
-    + lia. + exact Hk.
-    + intros l. rewrite HC. reflexivity.
-    + reflexivity.
-    + discriminate.
+  - (* SyncSome *)
+    set (w1 := {| recs := recs w; s := s w; st := st w; k := k w; t := t w; C := C w;
+                  D := fun l => if P l then C w l else D w l; dirtyl := filter (fun l => negb (P l)) (dirtyl w) |}).
+    assert (Hcur : cur w1 = cur w) by reflexivity.
+    constructor.
+    + cbn [recs s st k t w1]. lia.
+    + exact Hk.
+    + intros l. rewrite Hcur. apply HC.
+    + intros l Hl. unfold dirty, w1 in Hl. cbn [dirtyl] in Hl. rewrite dirty_filter in Hl. cbn [D C w1].
+      destruct (P l); [reflexivity|]. cbn [negb andb] in Hl. apply Hcl. exact Hl.
+    + intros l Hl. unfold dirty, w1 in Hl. cbn [dirtyl] in Hl. rewrite dirty_filter in Hl.
+      apply andb_true_iff in Hl as [_ Hl]. rewrite Hcur. apply Hd. exact Hl.
   - (* Truncate *)
-    constructor; cbn [recs s st k fl t C D dirty]; try assumption. lia.
+    constructor; cbn [recs s st k t C D]; try assumption; [lia|].
+    intros l Hl. exact (trunc_ok_spec w n H0 l Hl).
 Qed.
 
 Lemma winv_init T0 : WInv T0 (init T0).
@@ -139,9 +166,9 @@ Proof. constructor; cbn; try lia; try reflexivity; try discriminate. Qed.
 Lemma winv_reach T0 w : reach T0 w -> WInv T0 w.
 Proof. induction 1; [apply winv_init|eapply winv_step; eassumption]. Qed.
 
-(* Power loss at any reachable state: every cell dirty since the last flush holds an ARBITRARY value,
-   the log keeps records [t, m) for some m between the synced count and the appended count.
-   Replaying what the log kept yields exactly the state after the first m records. *)
+(* Power loss at any reachable state: every cell stored to since the last sync that covered it holds an
+   ARBITRARY value, the log keeps records [t, m) for some m between the synced count and the appended
+   count. Replaying what the log kept yields exactly the state after the first m records. *)
 Theorem power_loss_recovers T0 w : reach T0 w ->
   forall m D', (s w <= m <= length (recs w))%nat ->
   (forall l, dirty w l = false -> D' l = D w l) ->
@@ -163,8 +190,7 @@ Proof.
   { destruct (wrs (sub (recs w) (t w) (st w)) l) eqn:E; [|reflexivity]. exfalso.
     rewrite (wrs_sub_mono (recs w) (t w) (st w) (t w) m l) in Hnw; try lia; try discriminate; try assumption. }
   assert (Hclean : dirty w l = false).
-  { destruct (dirty w l) eqn:E; [|reflexivity]. exfalso. specialize (Hd l E). rewrite Hcur, orb_false_r in Hd.
-    rewrite (wrs_sub_mono (recs w) (fl w) (st w) (t w) (st w) l) in Hmid; try lia; try discriminate; try assumption. }
+  { destruct (dirty w l) eqn:E; [|reflexivity]. exfalso. specialize (Hd l E). rewrite Hcur, Hmid in Hd. discriminate. }
   rewrite (HD l Hclean), (Hcl l Hclean), HC, apply_ws_other by exact Hcur.
   unfold S_. rewrite firstn_sub, (sub_split (recs w) 0 (t w) (st w)) by lia. rewrite apply_recs_app, <- firstn_sub.
   apply apply_recs_other. exact Hmid.
@@ -173,7 +199,7 @@ Qed.
 (* ---- the executable protocol is the protocol ---- *)
 Lemma wstep_sound w e w' : wstep w e = Some w' -> step w w'.
 Proof.
-  destruct e as [r| | | | |n]; cbn [wstep]; intros H.
+  destruct e as [r| | | | |x|n]; cbn [wstep]; intros H.
   - injection H as <-. apply Append.
   - injection H as <-. apply SyncLog.
   - destruct (Nat.ltb_spec (st w) (s w)) as [Hlt|]; [|discriminate].
@@ -184,10 +210,12 @@ Proof.
     destruct (nth_error (recs w) (st w)) as [r|] eqn:Er; [|discriminate].
     destruct (Nat.eqb_spec (k w) (length (ws r))) as [Ek|]; [|discriminate].
     injection H as <-. apply (Finish w r Hlt Er Ek).
-  - injection H as <-. apply Flush.
+  - injection H as <-. apply (SyncSome w (fun _ => true)).
+  - injection H as <-. apply (SyncSome w (fun l => file_of l =? x)).
   - destruct (Nat.leb_spec (t w) n) as [H1|]; [|discriminate].
-    destruct (Nat.leb_spec n (fl w)) as [H2|]; [|discriminate]. cbn [andb] in H.
-    injection H as <-. apply Truncate. lia.
+    destruct (Nat.leb_spec n (st w)) as [H2|]; [|discriminate]. cbn [andb] in H.
+    destruct (trunc_ok w n) eqn:Ht; [|discriminate].
+    injection H as <-. apply Truncate; [lia|exact Ht].
 Qed.
 
 Lemma wrun_reach T0 evs : forall w w', reach T0 w -> wrun evs w = Some w' -> reach T0 w'.
@@ -195,6 +223,15 @@ Proof.
   induction evs as [|e evs IH]; intros w w' Hr H; cbn [wrun] in H; [injection H as <-; exact Hr|].
   destruct (wstep w e) as [w1|] eqn:E; [|discriminate].
   eapply IH; [|exact H]. eapply RS; [exact Hr|]. apply (wstep_sound w e w1 E).
+Qed.
+
+(* a trace that is accepted is accepted up to every one of its instants (the writer may stop anywhere) *)
+Lemma wrun_prefix evs : forall w w' n, wrun evs w = Some w' -> exists w'', wrun (firstn n evs) w = Some w''.
+Proof.
+  induction evs as [|e evs IH]; intros w w' n H.
+  - rewrite firstn_nil. exists w. reflexivity.
+  - destruct n as [|n]; [exists w; reflexivity|]. cbn [firstn wrun] in *.
+    destruct (wstep w e) as [w1|]; [|discriminate]. apply (IH w1 w' n H).
 Qed.
 
 (* Power loss at any point of any accepted event trace *)
@@ -283,9 +320,19 @@ Qed.
 Lemma store_needs_sync w w' : wstep w EStore = Some w' -> (st w < s w)%nat.
 Proof. cbn [wstep]. destruct (Nat.ltb_spec (st w) (s w)); [trivial|discriminate]. Qed.
 
-Lemma truncate_needs_flush w n w' : wstep w (ETruncate n) = Some w' -> (t w <= n <= fl w)%nat.
+(* a truncation is accepted only when every cell whose durable content is unknown is rewritten by a
+   record that stays in the log (in particular: always after a flush of everything stored so far) *)
+Lemma truncate_needs_cover w n w' : wstep w (ETruncate n) = Some w' ->
+  (t w <= n <= st w)%nat /\ forall l, dirty w l = true -> wrs (sub (recs w) n (st w)) l || wr (cur w) l = true.
 Proof.
-  cbn [wstep]. destruct (Nat.leb_spec (t w) n); [|discriminate]. destruct (Nat.leb_spec n (fl w)); [|discriminate]. lia.
+  cbn [wstep]. destruct (Nat.leb_spec (t w) n); [|discriminate]. destruct (Nat.leb_spec n (st w)); [|discriminate].
+  cbn [andb]. destruct (trunc_ok w n) eqn:E; [|discriminate]. intros _. split; [lia|]. apply trunc_ok_spec. exact E.
+Qed.
+
+Lemma truncate_after_flush w n : (t w <= n <= st w)%nat -> dirtyl w = [] -> exists w', wstep w (ETruncate n) = Some w'.
+Proof.
+  intros H Hd. cbn [wstep]. unfold trunc_ok. rewrite Hd. cbn [forallb].
+  destruct (Nat.leb_spec (t w) n); [|lia]. destruct (Nat.leb_spec n (st w)); [|lia]. cbn [andb]. eexists. reflexivity.
 Qed.
 
 (* D1 dropped: record 0 = {0:=1, 1:=1} appended, NOT synced, one of its two writes stored and flushed.
@@ -295,8 +342,8 @@ Lemma d1_needed : exists T0 w D' m, (s w <= m <= length (recs w))%nat /\
   forall n, exists l, apply_recs (sub (recs w) (t w) m) D' l <> apply_recs (firstn n (recs w)) T0 l.
 Proof.
   exists (fun _ => 0).
-  exists {| recs := [{| ws := [(0, 1); (1, 1)] |}]; s := O; st := O; k := 1; fl := O; t := O;
-            C := upd (fun _ => 0) 0 1; D := upd (fun _ => 0) 0 1; dirty := fun _ => false |}.
+  exists {| recs := [{| ws := [(0, 1); (1, 1)] |}]; s := O; st := O; k := 1; t := O;
+            C := upd (fun _ => 0) 0 1; D := upd (fun _ => 0) 0 1; dirtyl := [] |}.
   exists (upd (fun _ => 0) 0 1), O. split; [cbn; lia|]. split; [reflexivity|].
   intros [|n].
   - exists 0. vm_compute. discriminate.
@@ -304,16 +351,17 @@ Proof.
 Qed.
 
 (* D2 dropped: record 0 = {0:=1, 1:=1} synced and stored but the tables not flushed; its log file
-   truncated. Power loss loses the write of location 1. *)
+   truncated. Power loss loses the write of cell 1. *)
 Lemma d2_needed : exists T0 w D' m, (s w <= m <= length (recs w))%nat /\
   (forall l, dirty w l = false -> D' l = D w l) /\
   forall n, exists l, apply_recs (sub (recs w) (t w) m) D' l <> apply_recs (firstn n (recs w)) T0 l.
 Proof.
   exists (fun _ => 0).
-  exists {| recs := [{| ws := [(0, 1); (1, 1)] |}]; s := 1; st := 1; k := O; fl := O; t := 1;
-            C := upd (upd (fun _ => 0) 0 1) 1 1; D := fun _ => 0; dirty := fun x => (x =? 0) || (x =? 1) |}.
+  exists {| recs := [{| ws := [(0, 1); (1, 1)] |}]; s := 1; st := 1; k := O; t := 1;
+            C := upd (upd (fun _ => 0) 0 1) 1 1; D := fun _ => 0; dirtyl := [1; 0] |}.
   exists (upd (fun _ => 0) 0 1), 1%nat. split; [cbn; lia|]. split.
-  { intros l Hl. cbn [dirty] in Hl. unfold upd. cbn [D]. destruct (l =? 0); [discriminate|]. reflexivity. }
+  { intros l Hl. unfold dirty in Hl. cbn [dirtyl existsb] in Hl. unfold upd. cbn [D].
+    destruct (l =? 0); [rewrite orb_true_r in Hl; discriminate|]. reflexivity. }
   intros [|n].
   - exists 0. vm_compute. discriminate.
   - exists 1. cbn [recs firstn]. rewrite firstn_nil. vm_compute. discriminate.
